@@ -173,7 +173,7 @@ func VerifC06ForwardedBadFile() {
 	rt.Check(err == nil && hl != nil, "halt lock granted")
 	// (a body damaged without changing its length is decided by the file's CRC, which is an uninterpreted
 	// function here: that case is left to c18/ltx and not claimed)
-	kind := rt.Choose("file", 6) // 0 good, 1 min TXID too high, 2 min TXID too low, 3 other pre-checksum, 4 truncated, 5 snapshot-typed header (min TXID 1) with a truncated body
+	kind := rt.Choose("file", 7) // 6: a good file, but the lock lapses and the primary commits locally before the body arrives; 0 good, 1 min TXID too high, 2 min TXID too low, 3 other pre-checksum, 4 truncated, 5 snapshot-typed header (min TXID 1) with a truncated body
 	txid := next
 	pre := pos0.PostApplyChecksum
 	switch kind {
@@ -196,7 +196,20 @@ func VerifC06ForwardedBadFile() {
 	}
 	before := litefs.VerifSnapshotState(store)
 	w := &verifRW{}
-	s.serveHTTP(w, verifRequest("POST", "/tx", "name=db&lockID=7", "00000000000000AA", file))
+	req := verifRequest("POST", "/tx", "name=db&lockID=7", "00000000000000AA", file)
+	var local ltx.Pos
+	if kind == 6 {
+		// the request was admitted under the lock, but its body is slow: meanwhile the lock is released
+		// (expiry) and a local writer commits the very TXID the late file is numbered with
+		req.Body = &verifHookBody{data: file, hook: func() {
+			db.ReleaseHaltLock(ctx, 7)
+			pos, ok := litefs.VerifCommitPage1(db)
+			rt.Check(ok, "harness: local commit after the halt lapsed")
+			local = pos
+			before = litefs.VerifSnapshotState(store)
+		}}
+	}
+	s.serveHTTP(w, req)
 	code := w.code
 	if code == 0 {
 		code = 200
@@ -207,6 +220,31 @@ func VerifC06ForwardedBadFile() {
 		return
 	}
 	rt.Check(code >= 400, "a forwarded file that does not extend the exact (ID, checksum) or is damaged is refused")
+	if kind == 6 {
+		rt.Check(db.Pos() == local, "the primary's own transaction is not overwritten by a late forwarded file with the same number")
+	}
 	rt.Check(litefs.VerifSameState(before, litefs.VerifSnapshotState(store)), "a refused forwarded file leaves database, position, transaction log (no stray file), locks and halt lock unchanged")
 	rt.Reach("c06.forwarded.refused")
 }
+
+// verifHookBody is a request body that runs hook when the handler first reads it.
+type verifHookBody struct {
+	data []byte
+	pos  int
+	hook func()
+}
+
+func (b *verifHookBody) Read(p []byte) (int, error) {
+	if b.hook != nil {
+		h := b.hook
+		b.hook = nil
+		h()
+	}
+	if b.pos >= len(b.data) {
+		return 0, io.EOF
+	}
+	n := copy(p, b.data[b.pos:])
+	b.pos += n
+	return n, nil
+}
+func (b *verifHookBody) Close() error { return nil }
